@@ -464,7 +464,10 @@ func (s *Session) unop(st *State, x *ssa.UnOp) Value {
 	case token.ARROW:
 		// channel receive: may block; value arbitrary
 		if x.CommaOk {
-			return Tuple{s.freshTyped(st, "recv", x.Type().(*types.Tuple).At(0).Type()), s.fresh("recvok", SBool)}
+			ok := s.fresh("recvok", SBool)
+			// ok == false only on a closed channel (closedness is permanent: G_$chanClosed is never written)
+			st.assume(Implies(Not(ok), Select(s.H(st, "G_$chanClosed", ArrSort(SInt, SBool)), s.term(st, x.X))))
+			return Tuple{s.freshTyped(st, "recv", x.Type().(*types.Tuple).At(0).Type()), ok}
 		}
 		return s.freshTyped(st, "recv", x.Type())
 	case token.XOR:
@@ -730,7 +733,14 @@ func (s *Session) selectOp(st *State, x *ssa.Select) Value {
 		lo = IntLit(-1)
 	}
 	st.assume(And(Le(lo, idx), Lt(idx, IntLit(int64(len(x.States))))))
-	out := Tuple{idx, s.fresh("select_ok", SBool)}
+	rok := s.fresh("select_ok", SBool)
+	for i, cs := range x.States {
+		if cs.Dir == types.RecvOnly {
+			// the chosen receive yields ok == false only on a closed channel
+			st.assume(Implies(And(Eq(idx, IntLit(int64(i))), Not(rok)), Select(s.H(st, "G_$chanClosed", ArrSort(SInt, SBool)), s.term(st, cs.Chan))))
+		}
+	}
+	out := Tuple{idx, rok}
 	for i := 2; i < tup.Len(); i++ {
 		out = append(out, s.freshTyped(st, "select_recv", tup.At(i).Type()))
 	}
